@@ -815,11 +815,50 @@ func layersPart(tier string) runner.Part {
 				res.Samples = append(res.Samples, map[string]any{"layer": s.String(), "expected_lower_dir": b.expected.Describe(), "call_order_length": maxLen, "stores": stores, "modes": []string{"trusted", "user", "all"}})
 			}
 		}
+		// shrink every single-layer violation to a smallest layer that shows the same key
+		for i := range res.Violations {
+			res.Violations[i] = w.minimize(res.Violations[i], maxLen, c.Deadline)
+		}
 		res.Extra = map[string]any{"layers": len(specs), "call_order_depth": maxLen}
 		return res
 	}, Replay: func(c *runner.Ctx, raw json.RawMessage) (string, error) {
 		return replay(c, raw)
 	}}
+}
+
+// minimize drops members of the layer of a violation as long as the same key is still reported.
+func (w *world) minimize(viol runner.Violation, maxLen int, deadline time.Time) runner.Violation {
+	id, ok := viol.Replay.(caseID)
+	if !ok || len(id.Specs) != 1 {
+		return viol
+	}
+	cur := spec(id.Specs[0])
+	for changed := true; changed && len(cur) > 0; {
+		changed = false
+		for drop := range cur {
+			cand := append(append(spec{}, cur[:drop]...), cur[drop+1:]...)
+			if excluded(cand) {
+				continue
+			}
+			tmp := &runner.Result{Outcomes: map[string]int{}}
+			tv := &vset{res: tmp, seen: map[string]bool{}}
+			mode := modeByName(id.Mode)
+			guard(tv, "minimising", caseID{Specs: [][]int{cand}, Store: id.Store, Mode: id.Mode}, func() {
+				w.checkServed(cand, 0, id.Store, mode, tv, tmp)
+				w.checkOrders(cand, id.Store, mode, maxLen, deadline, tv, tmp)
+			})
+			for _, x := range tmp.Violations {
+				if x.Key == viol.Key {
+					viol, cur, changed = x, cand, true
+					break
+				}
+			}
+			if changed {
+				break
+			}
+		}
+	}
+	return viol
 }
 
 func modeByName(n string) layer.OverlayOpaqueType {
